@@ -327,6 +327,19 @@ def gen_tree(r, max_depth=3, allow_bytes=False, nfiles=None):
         if r.random() < 0.08:
             text = text.replace('\n', '\r\n')
         files[n['path']] = text
+    if nodes and r.random() < 0.1:
+        # an included file that contributes nothing (empty, blank lines, comments only)
+        host = r.choice(nodes)['path']
+        ep = posixpath.dirname(host) + '/empty.inc'
+        if ep not in files and not _would_be_ambiguous(nodes, inc_dirs, used_paths, posixpath.dirname(host), 'empty.inc', ep):
+            files[ep] = r.choice(('', '\n', '\n\n   \n', '# nothing here\n', '   # indented comment only'))
+            hl = files[host].split('\n')
+            eol = '\r' if hl and hl[0].endswith('\r') else ''
+            pos = _safe_pos([l.rstrip('\r') for l in hl], r.randint(0, len(hl)), 0)
+            # keep constant/alias header lines first is not required for an empty file; any safe position will do
+            hl.insert(pos, 'include empty.inc' + eol)
+            files[host] = '\n'.join(hl)
+            includes.append({'from': host, 'written': 'empty.inc', 'target': ep})
     tree = {'files': files, 'bins': bins, 'dirs': list(LAYOUT_DIRS), 'main': main, 'inc_dirs': inc_dirs, 'includes': includes,
             'symbols': env}
     return tree
